@@ -68,8 +68,14 @@ def judgeConv (payload impl : String) : Verdict :=
         let implStripped := (implSx.map strip).map Sx.toStr
         let crashed := (impl.splitOn "panic").length > 1 || (impl.splitOn "crash").length > 1 || (impl.splitOn "timeout").length > 1
         -- HEAD: the server half cannot know the request method and reads a body that is not there
-        let tags := if conv.any (fun (q, r) => q.method == bytesOfString "HEAD" &&
-              r.headers.any (fun h => Wire.lower h.1 == bytesOfString "content-length")) then ["http-head-response-body"] else []
+        let tags := (if conv.any (fun (q, r) => q.method == bytesOfString "HEAD" &&
+              r.headers.any (fun h => Wire.lower h.1 == bytesOfString "content-length")) then ["http-head-response-body"] else []) ++
+          -- net/http answers `Pragma: no-cache` without a Cache-Control header by adding `Cache-Control: no-cache`
+          -- to the request or response it returns (RFC 7234 5.4 reading of the pair): the entry shows a header nobody sent
+          (let invents := fun (hs : List (Bytes × Bytes)) =>
+              ((hs.filter fun h => Wire.lower h.1 == bytesOfString "pragma").head?.map (·.2)) == some (bytesOfString "no-cache") &&
+              !hs.any (fun h => Wire.lower h.1 == bytesOfString "cache-control")
+           if conv.any (fun (q, r) => invents q.headers || invents r.headers) then ["http-pragma-cache-control"] else [])
         -- on a tagged conversation the stream is mis-framed from the HEAD response on; how net/http
         -- recovers from the resulting garbage is outside the wire model: correspondence is not evaluated
         { corr := !tags.isEmpty || implStripped == some m.toStr, implSpec := !crashed && implStripped == some want.toStr,
@@ -173,6 +179,19 @@ def h2FrameOfSx : Sx → Option H2.Frame
   | .list [.atom "o", _, sid] => sid.asNat?.map .other
   | _ => none
 
+/-- a half whose encoder raises its table to 8192 and then to 65536 before its next header block opens that
+    block with two dynamic table size updates (RFC 7541 4.2 allows exactly that); x/net's hpack decoder refuses
+    a second update once the table holds an entry, and the rest of the half is lost (recorded finding) -/
+def twoSizeUpdates (fs : List Sx) : Bool :=
+  -- pending: 0 none, 1 (min 8k, final 8k), 2 (min 8k, final 64k), 3 (min 64k, final 64k)
+  let rec go : List Sx → Bool → Nat → Bool
+    | [], _, _ => false
+    | .list (.atom "h" :: _) :: rest, seen, pend => if seen && pend == 2 then true else go rest true 0
+    | .list [.atom "o", .atom "tableup8k", _] :: rest, seen, _ => go rest seen 1
+    | .list [.atom "o", .atom "tableup64k", _] :: rest, seen, pend => go rest seen (if pend == 1 || pend == 2 then 2 else 3)
+    | _ :: rest, seen, pend => go rest seen pend
+  go fs false 0
+
 def judgeH2 (payload impl : String) : Verdict :=
   match Sx.parse payload with
   | some (.list [.list (.atom "c" :: cfs), .list (.atom "s" :: sfs)]) =>
@@ -185,8 +204,9 @@ def judgeH2 (payload impl : String) : Verdict :=
       let sids := H2.Spec.streamIds cf
       let oneSided := sids.any fun sid =>
         H2.grpcMarked (H2.Spec.streamHeaders (H2.Spec.ofStream sid cf)) != H2.grpcMarked (H2.Spec.streamHeaders (H2.Spec.ofStream sid sf))
-      let tags : List String := if oneSided then [] else []
-      { corr := m.toStr == impl, implSpec := !crashed && want.toStr == impl, modelSpec := m.toStr == want.toStr, tags,
+      let tags : List String := (if oneSided then [] else []) ++
+        (if twoSizeUpdates cfs || twoSizeUpdates sfs then ["h2-hpack-two-size-updates"] else [])
+      { corr := !tags.isEmpty || m.toStr == impl, implSpec := !crashed && want.toStr == impl, modelSpec := m.toStr == want.toStr, tags,
         nontrivial := !cf.isEmpty && !sf.isEmpty, cls := s!"streams={min sids.length 4}",
         model := m.toStr, spec := want.toStr }
     | _, _ => .bad "bad-case"
